@@ -246,8 +246,8 @@ func (ip *Interposer) Wait() bool {
 // Interposed connects to the host through ip (one stream per Interposer).
 func Interposed(h *Host, ip *Interposer) *Client {
 	return &Client{HostKey: h.Key.PublicKey(), Dial: func(context.Context) (net.Conn, error) {
-		ca, cb := net.Pipe() // client <-> proxy
-		sa, sb := net.Pipe() // proxy <-> server
+		ca, cb := BufPipe() // client <-> proxy
+		sa, sb := BufPipe() // proxy <-> server
 		done, err := h.Mux.offer(sb)
 		if err != nil {
 			return nil, err
